@@ -459,7 +459,7 @@ func TestC06(t *testing.T) {
 	idx := 0
 	// ---- (i) timer object
 	timerCases := 0
-	for k := 0; k <= maxK; k++ {
+	for k := -1; k <= maxK; k++ { // k = -1: SuspicionMult 1 (no confirmations expected: the minimum is used from the start)
 		for _, mm := range [][2]time.Duration{{2 * time.Second, 2 * time.Second}, {2 * time.Second, 12 * time.Second}, {500 * time.Millisecond, 30 * time.Second}} {
 			menu := timerMenu(k, mm[0], mm[1])
 			senders := []string{"acc", "p1", "p2", "p3", "p4"}[:min(5, k+3)]
@@ -503,7 +503,7 @@ func TestC06(t *testing.T) {
 	type cfgT struct{ n, mult, maxm int }
 	var cfgs []cfgT
 	for _, n := range []int{2, 3, 4, 5, 6, 12} {
-		for _, mult := range []int{2, 3, 4, 6} {
+		for _, mult := range []int{1, 2, 3, 4, 6} {
 			for _, mm := range []int{1, 2, 6} {
 				if !thorough() && (n == 5 || mult == 6) && mm == 2 {
 					continue
